@@ -41,21 +41,128 @@ let run_mask kvs =
   let o = string_of_bytes out in
   Printf.sprintf "out=%s key=%s spec=%s" (fnv o) (hex_of_key k') (fnv (string_of_bytes spec))
 
-let suites : (string * ((string * string) list -> string)) list = [
-  "mask", run_mask;
+(* ---- the flate oracle coprocess (wsharness -oracle): instantiates the Section variables dz / inflate ---- *)
+let oracle_chan : (in_channel * out_channel) option ref = ref None
+let oracle () =
+  match !oracle_chan with
+  | Some c -> c
+  | None ->
+    let exe = Filename.concat (Filename.dirname Sys.executable_name) "../bin/wsharness" in
+    let c = Unix.open_process (Filename.quote exe ^ " -oracle") in
+    oracle_chan := Some c; c
+let oracle_query (q : string) : string =
+  let (ic, oc) = oracle () in
+  output_string oc q; output_char oc '\n'; flush oc;
+  input_line ic
+
+let hexb (l : n list) : string = hex (string_of_bytes l)
+let dz_oracle (hist : dzop list) : n list list =
+  let ops = List.map (function DWrite p -> "w" ^ hexb p | DFlush -> "f") hist in
+  let r = oracle_query ("D " ^ String.concat "," ops) in
+  if r = "-" then [] else List.map (fun h -> bytes_of_string (unhex h)) (String.split_on_char ',' r)
+let inflate_oracle (dict : n list) (inp : n list) : n list * istatus =
+  let r = oracle_query (Printf.sprintf "I %s %s" (hexb dict) (hexb inp)) in
+  match String.split_on_char ' ' r with
+  | [st; c; o] ->
+    let out = bytes_of_string (unhex o) in
+    (out, (match st with "final" -> IFinal (nat_of_int (int_of_string c)) | "needmore" -> INeedMore | _ -> ICorrupt))
+  | _ -> failwith ("bad oracle reply " ^ r)
+
+let role_of s = if s = "client" then Client else Server
+let co_of s = if s = "none" || s = "" then None else Some { cnct = s.[0] = '1'; snct = s.[1] = '1' }
+
+(* ---- suite wire-out ---- *)
+let parse_prog (prog : string) : wop list * int =
+  let pings = ref 0 in
+  let ops = List.filter_map (fun op ->
+    match String.split_on_char '~' op with
+    | ["W"; t; p] -> Some (WWrite (n_of_int (int_of_string t), bytes_of_string (payload p)))
+    | ["S"; t; chs] ->
+      let cs = if chs = "" then [] else List.map (fun c -> bytes_of_string (payload c)) (String.split_on_char ';' chs) in
+      Some (WStream (n_of_int (int_of_string t), cs))
+    | ["P"] -> incr pings; Some (WControl (n_of_int 9, bytes_of_string (string_of_int !pings)))
+    | ["C"; code; r] -> Some (WClose (z_of_int (int_of_string code), bytes_of_string (payload r)))
+    | ["X"] -> None
+    | _ -> failwith ("bad op " ^ op)) (String.split_on_char '|' prog) in
+  (ops, !pings)
+
+let keys_of_frames (fs : pframe list) : int -> key =
+  let arr = Array.of_list (List.map (fun f -> f.pf_hdr.h_key) fs) in
+  fun i -> if i < Array.length arr then arr.(i) else (((N0, N0), N0), N0)
+
+let ev_str (e : (n * n list) option) = match e with
+  | Some (t, p) -> Printf.sprintf "m%d:%d:%s" (int_of_n t) (List.length p) (fnv (string_of_bytes p))
+  | None -> "corrupt"
+
+let run_wireout kvs ikvs =
+  let role = role_of (get kvs "role") in
+  let co = co_of (get kvs "co") in
+  let cfg = { wc_role = role; wc_co = co; wc_thr0 = n_of_int (int_of_string (get_or kvs "thr" "0")) } in
+  let (prog, _) = parse_prog (get kvs "prog") in
+  let iwire = bytes_of_string (unhex (get_or ikvs "wire" "-")) in
+  let (ifs, iend) = parse iwire in
+  let keyf = keys_of_frames ifs in
+  let keys (i : nat) = keyf (int_of_nat i) in
+  let st = w_run keys dz_oracle cfg prog in
+  let mwire = string_of_bytes (w_wire st) in
+  (* the judge: the property's own checker applied to what the implementation wrote *)
+  let takeover = (match co with Some c -> writer_takeover role c | None -> false) in
+  let verdict =
+    if iend <> PClean then "violation:unparsable-tail"
+    else if not (wf_stream role co ifs) then "violation:not-conformant"
+    else begin
+      let evs = ref_events ifs in
+      let got_msgs = List.map ev_str (ref_messages inflate_oracle takeover [] evs) in
+      let got_ctl = List.filter_map (function EvCtl (o, p) -> Some (Printf.sprintf "c%d:%s" (int_of_n o) (hexb p)) | _ -> None) evs in
+      let exp_msgs = List.filter_map (function
+        | WWrite (t, p) -> Some (ev_str (Some (t, p)))
+        | WStream (t, cs) -> Some (ev_str (Some (t, List.concat cs)))
+        | _ -> None) prog in
+      let exp_ctl = List.filter_map (function
+        | WControl (o, p) -> Some (Printf.sprintf "c%d:%s" (int_of_n o) (hexb p))
+        | WClose (c, r) -> (match close_payload c r with Some p -> Some (Printf.sprintf "c8:%s" (hexb p)) | None -> None)
+        | _ -> None) prog in
+      let keys_l = List.filter_map (fun f -> if f.pf_hdr.h_masked then Some f.pf_hdr.h_key else None) ifs in
+      let distinct = List.length (List.sort_uniq compare keys_l) = List.length keys_l in
+      if got_msgs <> exp_msgs then "violation:messages-differ"
+      else if got_ctl <> exp_ctl then "violation:control-frames-differ"
+      else if not distinct then "violation:mask-key-repeated"
+      else "ok"
+    end in
+  let errs = List.map (function
+    | WClose (c, r) -> (match close_payload c r with Some _ -> "nil" | None -> "other")
+    | _ -> "nil") prog in
+  Printf.sprintf "errs=%s wirefnv=%s n=%d frames=%d judge=%s" (String.concat "," errs) (fnv mwire) (String.length mwire) (List.length st.w_out) verdict
+
+let suites : (string * ((string * string) list -> (string * string) list -> string)) list = [
+  "mask", (fun kvs _ -> run_mask kvs);
+  "wire-out", run_wireout;
 ]
 
 let () =
   let suite = Sys.argv.(1) in
   let f = try List.assoc suite suites with Not_found -> (prerr_endline ("unknown suite " ^ suite); exit 2) in
   let ic = if Array.length Sys.argv > 2 then open_in Sys.argv.(2) else stdin in
+  (* optional third argument: the implementation's observation file (oracle inputs such as mask keys,
+     and the bytes the judge is applied to), joined by id *)
+  let impl : (string, (string * string) list) Hashtbl.t = Hashtbl.create 1024 in
+  if Array.length Sys.argv > 3 then begin
+    let ii = open_in Sys.argv.(3) in
+    (try while true do
+      let l = input_line ii in
+      let k = kv (split_ws l) in
+      Hashtbl.replace impl (get k "id") k
+    done with End_of_file -> ());
+    close_in ii
+  end;
   (try
     while true do
       let line = input_line ic in
       if line <> "" && line.[0] <> '#' then begin
         let kvs = kv (split_ws line) in
         let id = get kvs "id" in
-        let o = try f kvs with e -> "modelerror=" ^ String.map (fun c -> if c = ' ' then '_' else c) (Printexc.to_string e) in
+        let ikvs = try Hashtbl.find impl id with Not_found -> [] in
+        let o = try f kvs ikvs with e -> "modelerror=" ^ String.map (fun c -> if c = ' ' then '_' else c) (Printexc.to_string e) in
         Printf.printf "id=%s %s\n" id o
       end
     done
